@@ -359,9 +359,10 @@ def seq_functions(target, ks, tag=""):
 FULL_GROUPS = True      # set by gen_cases: the quick tier uses the short group for tuples of two or more names
 
 
-def seq_mixed(target, ks, rev=False):
+def seq_mixed(target, ks, rev=False, short=None):
     ops = []
-    short = (not FULL_GROUPS) and len(ks) > 1
+    if short is None:
+        short = (not FULL_GROUPS) and len(ks) > 1
     for k in ks:
         if short:
             grp = [("I", k), ("I", "<state>" + k), ("F", "<func>" + k)]
@@ -482,7 +483,8 @@ def gen_cases(tier, seed):
         for ks in tuples(pair_names, 2):
             if tier == "quick" or len(ks[0]) + len(ks[1]) <= 4:
                 cases.append((target, seq_locals(target, ks)))
-            cases.append((target, seq_mixed(target, ks, rev=len(ks[0]) % 2 == 1)))
+            cases.append((target, seq_mixed(target, ks, rev=len(ks[0]) % 2 == 1,
+                                            short=True if len(ks[0]) + len(ks[1]) == 6 else None)))
         if tier != "quick":
             for ks in tuples(n2, 2):
                 cases.append((target, seq_mixed(target, ks, rev=len(ks[0]) % 2 == 0)))
@@ -501,7 +503,7 @@ def gen_cases(tier, seed):
                     cases.append((target, seq_mixed(target, ks)))
     n_exh = len(cases) - n_corpus
     rng = random.Random(seed * 7919 + 13)
-    nrand = 1600 if tier == "quick" else 40000
+    nrand = 1600 if tier == "quick" else 25000
     for i in range(nrand):
         cases.append(random_case(rng, "py" if i % 2 else "f"))
     dist = {"corpus": n_corpus, "exhaustive": n_exh, "random": nrand,
